@@ -56,7 +56,10 @@ type retPoint struct {
 	blk  int
 }
 
-type frameLoc struct{ obj, lo, hi string }
+type frameLoc struct {
+	obj, lo, hi string
+	typ         types.Type // static type of the region's object (struct for p.*, element type for s[*])
+}
 
 // Exec symbolically executes one SSA function (the root under contract, or an
 // inlined callee sharing the root's context).
@@ -87,6 +90,7 @@ type Exec struct {
 	oldEnv   *Env
 	unrollK  int
 	loops    map[*ssa.BasicBlock]*loopInfo
+	loopsByLane map[loopKey]*loopInfo
 	doneBlk  map[*ssa.BasicBlock]bool
 	boundedBy []string
 	nlanes   int
@@ -263,7 +267,7 @@ func (e *Exec) load(s *State, obj, cell string, t types.Type) Val {
 			addr = c.add(cell, fmt.Sprint(i))
 		}
 		var v string
-		if r, ok := c.readHeap(s.heaps[l.kind], obj, addr); ok && c.raw == 0 {
+		if r, ok := c.readHeap(s.heaps[l.kind], obj, addr); ok {
 			v = r // resolved syntactically through the store chain
 		} else {
 			v = c.I("(select (select %s %s) %s)", s.heaps[l.kind], obj, addr)
@@ -290,6 +294,9 @@ func (e *Exec) assumeTyped(s *State, v Val, t types.Type) {
 		obj, off, ln, cp := v[0], v[1], v[2], v[3]
 		c.assume(s.pc, c.B("(and (<= 0 %s) (< %s %s) (<= 0 %s) (<= 0 %s) (<= %s %s) (<= %s %s) (<= %s %s) (=> (= %s 0) (and (= %s 0) (= %s 0))) (=> (not (= %s 0)) (= (tag %s) %d)))",
 			obj, obj, s.A, off, ln, ln, cp, cp, maxLen, off, maxLen, obj, cp, off, obj, obj, e.p.tagOf(u.Elem())))
+		if _, dup := c.objTags[obj]; !dup {
+			c.objTags[obj] = []int{e.p.tagOf(u.Elem())}
+		}
 	case *types.Pointer:
 		c.assume(s.pc, c.B("(and (<= 0 %s) (< %s %s) (<= 0 %s) (=> (= %s 0) (= %s 0)))", v[0], v[0], s.A, v[1], v[0], v[1]))
 		if tags := e.p.containerTags(u.Elem()); len(tags) > 0 {
@@ -298,6 +305,9 @@ func (e *Exec) assumeTyped(s *State, v Val, t types.Type) {
 				alts = append(alts, fmt.Sprintf("(= (tag %s) %d)", v[0], tg))
 			}
 			c.assume(s.pc, c.B("(=> (not (= %s 0)) (or %s false))", v[0], strings.Join(alts, " ")))
+			if _, dup := c.objTags[v[0]]; !dup {
+				c.objTags[v[0]] = tags
+			}
 		}
 	case *types.Struct:
 		off := 0
@@ -380,6 +390,8 @@ func (e *Exec) alloc(s *State, t types.Type) string {
 	obj := s.A
 	s.A = c.I("(+ %s 1)", obj)
 	c.assume(s.pc, c.B("(= (tag %s) %d)", obj, e.p.tagOf(t)))
+	c.objTags[obj] = []int{e.p.tagOf(t)}
+	c.nonNil[obj] = true
 	seen := map[string]bool{}
 	for _, l := range leaves(t) {
 		if !seen[l.kind] {
@@ -1372,35 +1384,108 @@ func (e *Exec) modifiedIn(body map[*ssa.BasicBlock]bool) *modSet {
 // havocHeaps replaces the heaps of the given kinds by fresh ones, keeping
 // (by the frame obligations checked on every write) all cells of objects older
 // than the root's entry that are outside the root's modifies clause.
-func (e *Exec) havocHeaps(s *State, kinds map[string]bool, allocs bool) {
+func (e *Exec) havocHeaps(s *State, kinds map[string]bool, allocs bool, narrowed []frameLoc, useNarrowed bool) {
 	c := e.c
 	r := e.root
+	frame := r.frame
 	if allocs {
 		Aold := s.A
 		s.A = c.fresh("Int", "hvA")
 		c.assume("true", c.B("(<= %s %s)", Aold, s.A))
 	}
 	var ks []string
+	pre := map[string]string{}
 	for k := range kinds {
 		ks = append(ks, k)
+		pre[k] = s.heaps[k]
 	}
 	sort.Strings(ks)
+	if useNarrowed {
+		defer e.keepCells(s, kinds, pre, narrowed)
+	}
 	for _, k := range ks {
 		nh := c.fresh("HP", "hvH"+k)
+		hpre := s.heaps[k]
 		s.heaps[k] = nh
 		if r.frameAll {
 			continue
 		}
+		if useNarrowed {
+			// the region being havocked can write only these cells of old objects:
+			// every other cell of an old object keeps the value it had just before
+			var inf []string
+			for _, f := range narrowed {
+				inf = append(inf, fmt.Sprintf("(and (= o %s) (<= %s x) (< x %s))", f.obj, f.lo, f.hi))
+			}
+			c.emit(fmt.Sprintf("(assert (forall ((o Int) (x Int)) (! (=> (and (< o %s) (not (or %s false))) (= (select (select %s o) x) (select (select %s o) x))) :pattern ((select (select %s o) x)))))",
+				r.A0, strings.Join(inf, " "), nh, hpre, nh), true)
+		}
 		h0 := r.H0[k]
-		if len(r.frame) == 0 {
+		if len(frame) == 0 {
 			c.emit(fmt.Sprintf("(assert (forall ((o Int)) (! (=> (< o %s) (= (select %s o) (select %s o))) :pattern ((select %s o)))))", r.A0, nh, h0, nh), true)
 		} else {
 			var inf []string
-			for _, f := range r.frame {
+			for _, f := range frame {
 				inf = append(inf, fmt.Sprintf("(and (= o %s) (<= %s x) (< x %s))", f.obj, f.lo, f.hi))
 			}
 			c.emit(fmt.Sprintf("(assert (forall ((o Int) (x Int)) (! (=> (and (< o %s) (not (or %s false))) (= (select (select %s o) x) (select (select %s o) x))) :pattern ((select (select %s o) x)))))",
 				r.A0, strings.Join(inf, " "), nh, h0, nh), true)
+		}
+	}
+}
+
+// keepCells: after a narrowed havoc, the cells of the root's struct regions that
+// the havocked code provably does not write are written back with the values
+// they had before - the same fact as the quantified axiom emitted above, but as
+// a store chain, so that later loads resolve syntactically.
+func (e *Exec) keepCells(s *State, kinds map[string]bool, pre map[string]string, narrowed []frameLoc) {
+	c := e.c
+	for _, f := range e.root.frame {
+		if f.typ == nil {
+			continue
+		}
+		if _, ok := f.typ.Underlying().(*types.Struct); !ok {
+			continue
+		}
+		ls := leaves(f.typ)
+		if c.cmpAddr(f.hi, c.add(f.lo, fmt.Sprint(len(ls)))) != 1 {
+			continue
+		}
+		for i, l := range ls {
+			if !kinds[l.kind] {
+				continue
+			}
+			addr := c.add(f.lo, fmt.Sprint(i))
+			ab, ao := c.baseOff(addr)
+			written := false
+			for _, n := range narrowed {
+				if c.cmpAddr(n.obj, f.obj) == -1 {
+					continue
+				}
+				if c.cmpAddr(n.obj, f.obj) == 0 {
+					written = true
+					break
+				}
+				lb, lo := c.baseOff(n.lo)
+				hb, hi := c.baseOff(n.hi)
+				if lb != ab || hb != ab {
+					written = true
+					break
+				}
+				if lo.Cmp(ao) <= 0 && ao.Cmp(hi) < 0 {
+					written = true
+					break
+				}
+			}
+			if written {
+				continue
+			}
+			v, ok := c.readHeap(pre[l.kind], f.obj, addr)
+			if !ok {
+				v = c.I("(select (select %s %s) %s)", pre[l.kind], f.obj, addr)
+			}
+			h := s.heaps[l.kind]
+			s.heaps[l.kind] = c.H("(store %s %s (store (select %s %s) %s %s))", h, f.obj, h, f.obj, addr, v)
 		}
 	}
 }
